@@ -16,6 +16,7 @@ import (
 	"container/heap"
 	"fmt"
 	"math/rand"
+	"net"
 	"os"
 	"sort"
 	"strings"
@@ -878,17 +879,55 @@ func TestVerifWallClock(t *testing.T) {
 			cmd.WriteTo(pc)
 			_, at := recv()
 			report(fmt.Sprintf("defer %v", d), at, t0.Add(d), t0.Add(d))
-		case "dpub2": // the same deferred publish reaches a second channel: not early there either
-			topic.GetChannel("ch2")
-			c2, err := mustConnectNSQD(tcpAddr)
-			if err != nil {
-				panic(err)
+		case "dpub2": // the same deferred publish reaches every further channel of the topic: not early there either
+			// Topic.messagePump hands the original to the first channel of its slice and a COPY to each other one; the
+			// slice is filled in map order (the channel created first comes first 7 times out of 8), so the copies are
+			// the later channels almost always. Every channel has a consumer of its own and every consumer is read by
+			// a goroutine of its own that stamps its arrival itself: reading them one after the other stamped a later
+			// channel only after the first one's deferral had run out, and a copy that lost its deferral (delivered at
+			// once on its channel) went unnoticed unless the map order happened to make `ch` the copy (seeded C04-m1).
+			nch := 2 + idx%2 // two or three channels
+			type arrival struct {
+				at  time.Time
+				err string
 			}
-			defer c2.Close()
-			c2.SetDeadline(time.Now().Add(20 * time.Second))
-			identify(nil, c2, nil, frameTypeResponse)
-			sub(nil, c2, topicName, "ch2")
-			nsq.Ready(1).WriteTo(c2)
+			arr := make([]chan arrival, nch)
+			arr[0] = make(chan arrival, 1)
+			for k := 1; k < nch; k++ {
+				name := fmt.Sprintf("ch%d", k+1)
+				topic.GetChannel(name)
+				ck, err := mustConnectNSQD(tcpAddr)
+				if err != nil {
+					panic(err)
+				}
+				defer ck.Close()
+				ck.SetDeadline(time.Now().Add(20 * time.Second))
+				identify(nil, ck, nil, frameTypeResponse)
+				sub(nil, ck, topicName, name)
+				nsq.Ready(1).WriteTo(ck)
+				arr[k] = make(chan arrival, 1)
+				go func(ck net.Conn, out chan arrival) {
+					for {
+						resp, err := nsq.ReadResponse(ck)
+						at := time.Now()
+						if err != nil {
+							out <- arrival{err: err.Error()}
+							return
+						}
+						ft, data, _ := nsq.UnpackResponse(resp)
+						if ft == frameTypeResponse && string(data) == "_heartbeat_" {
+							nsq.Nop().WriteTo(ck)
+							continue
+						}
+						if ft != frameTypeMessage {
+							out <- arrival{err: fmt.Sprintf("unexpected frame %d %q", ft, data)}
+							return
+						}
+						out <- arrival{at: at}
+						return
+					}
+				}(ck, arr[k])
+			}
 			pc, err := mustConnectNSQD(tcpAddr)
 			if err != nil {
 				panic(err)
@@ -897,17 +936,22 @@ func TestVerifWallClock(t *testing.T) {
 			identify(nil, pc, nil, frameTypeResponse)
 			t0 := time.Now()
 			nsq.DeferredPublish(topicName, d, body).WriteTo(pc)
-			_, at := recv()
-			report(fmt.Sprintf("defer %v (channel 1 of 2)", d), at, t0.Add(d), t0.Add(d))
-			resp, err := nsq.ReadResponse(c2)
-			if err != nil {
-				panic(err)
+			go func() {
+				defer func() {
+					if e := recover(); e != nil {
+						arr[0] <- arrival{err: fmt.Sprint(e)}
+					}
+				}()
+				_, at := recv()
+				arr[0] <- arrival{at: at}
+			}()
+			for k := 0; k < nch; k++ {
+				a := <-arr[k]
+				if a.err != "" {
+					panic(fmt.Sprintf("dpub2: channel %d of %d: %s", k+1, nch, a.err))
+				}
+				report(fmt.Sprintf("defer %v (channel %d of %d)", d, k+1, nch), a.at, t0.Add(d), t0.Add(d))
 			}
-			at2 := time.Now()
-			if ft, _, _ := nsq.UnpackResponse(resp); ft != frameTypeMessage {
-				panic("dpub2: unexpected frame on the second channel")
-			}
-			report(fmt.Sprintf("defer %v (channel 2 of 2)", d), at2, t0.Add(d), t0.Add(d))
 		case "req":
 			topic.PutMessage(NewMessage(topic.GenerateID(), body))
 			m, _ := recv()
